@@ -14,7 +14,7 @@ RULE = ("structural part: every symmetric 0/1 matrix on n<=4 atoms x every eleme
         "the result is symmetric, integer, >=1 exactly on bonded pairs and 0 elsewhere, no exception.  Chemical part: every connected, "
         "neutral, closed-shell multigraph with bond orders 1-3 on <=3 heavy atoms (thorough <=4) from C,N,O,S(II/VI),P(III/V),F,Cl,Br,I "
         "in standard valences with hydrogens filled in, every C4-C5 (thorough C6) hydrocarbon skeleton (cumulated / conjugated / cyclic), "
-        "plus 28 listed aromatic / cumulated / hypervalent systems, each in all atom "
+        "plus the listed aromatic / cumulated / cross-conjugated bis-cumulene / hypervalent systems (M.listed()), each in all atom "
         "orders (<=5 atoms quick, <=6 thorough) or shifts + reversal + transpositions: every atom gets a standard valence, all charges "
         "and unpaired electrons are zero, support equals connectivity; the public path g.to_rdmol(generate_bond_orders=True) on the "
         "listed molecules, hydrocarbons and a stride of the enumeration (MolGraph / StereoMolGraph, three identifier schemes, both "
